@@ -22,6 +22,10 @@ type lgen struct {
 	n     int
 	ops   map[string]int
 	async []string // statements for the async main function
+	// (F12, established) a tagged template and a `var` declaration / for-of head with an object
+	// rest pattern in the same scope collide on the temporary `_a` when both are lowered (e.g.
+	// --target=node8): the two kinds of snippet are kept in different programs
+	hasTemplate, hasForRest bool
 }
 
 func newLgen(r *Rng) *lgen { return &lgen{r: r, ops: map[string]int{}} }
@@ -230,7 +234,8 @@ func (g *lgen) restSpread() string {
 	var sb strings.Builder
 	sb.WriteString("var " + src + " = " + g.probedObject() + ";\n")
 	a, b, rest := g.fresh("d"), g.fresh("d"), g.fresh("rest")
-	switch r.Intn(9) {
+	pick := r.Intn(9)
+	switch pick {
 	case 0:
 		sb.WriteString(fmt.Sprintf("var {a: %s, ...%s} = %s;\n%s;\n", a, rest, g.p(src), g.p(a+", "+rest)))
 	case 1:
@@ -417,9 +422,19 @@ func (g *lgen) Program(kinds int) string {
 		case 0, 1, 2:
 			sb.WriteString(g.class())
 		case 3, 4:
-			sb.WriteString(g.restSpread())
+			if g.hasTemplate {
+				sb.WriteString(g.chainSnippet())
+			} else {
+				g.hasForRest = true
+				sb.WriteString(g.restSpread())
+			}
 		case 5:
-			sb.WriteString(g.template())
+			if g.hasForRest {
+				sb.WriteString(g.chainSnippet())
+			} else {
+				g.hasTemplate = true
+				sb.WriteString(g.template())
+			}
 		case 6, 7:
 			asyncParts = append(asyncParts, g.asyncSnippet())
 		default:
